@@ -47,17 +47,27 @@ class Lock:
 # ------------------------------------------------------------------------------------------------
 # Coq
 
-def coq_make(targets, clean=False):
-    """(ok, log).  Full .vo build of the given targets (never -vos)."""
-    with Lock("coq"):
-        if clean:
-            sh("rm -f Makefile Makefile.conf .Makefile.d; find . -name '*.vo' -o -name '*.vok' -o -name '*.vos' "
-               "-o -name '*.glob' -o -name '.*.aux' | xargs rm -f", cwd=COQ)
-        if not os.path.exists(os.path.join(COQ, "Makefile")):
-            rc, out = sh("coq_makefile -f _CoqProject -o Makefile", cwd=COQ)
+def fresh_coq_copy():
+    """a private copy of the Coq sources (no compiled files) for a from-scratch build (thorough tier)"""
+    import shutil
+    d = os.path.join(CACHE, "thorough", str(os.getpid()))
+    shutil.rmtree(d, ignore_errors=True)
+    os.makedirs(os.path.join(d, "ocaml"), exist_ok=True)
+    shutil.copytree(COQ, os.path.join(d, "coq"),
+                    ignore=shutil.ignore_patterns("*.vo", "*.vok", "*.vos", "*.glob", ".*.aux", "Makefile*", ".Makefile.d", ".lia.cache"))
+    return os.path.join(d, "coq")
+
+
+def coq_make(targets, root=None):
+    """(ok, log).  Full .vo build of the given targets (never -vos).  With [root] (a fresh copy)
+    the build starts from scratch and does not touch the shared tree."""
+    root = root or COQ
+    with Lock("coq" if root == COQ else "coq-" + str(os.getpid())):
+        if not os.path.exists(os.path.join(root, "Makefile")):
+            rc, out = sh("coq_makefile -f _CoqProject -o Makefile", cwd=root)
             if rc != 0:
                 return False, out
-        rc, out = sh(["timeout", "1500", "make", "-j16"] + targets, cwd=COQ, timeout=1600)
+        rc, out = sh(["timeout", "2400", "make", "-j16"] + targets, cwd=root, timeout=2500)
         return rc == 0, out
 
 
@@ -113,16 +123,16 @@ def statements_lock_ok(pid):
     return want.get(f) == h, h
 
 
-def print_assumptions(pid, names):
+def print_assumptions(pid, names, root=None):
     """{theorem: [axioms]} via a throw-away file that requires the compiled property file."""
-    d = os.path.join(CACHE, "audit")
+    d = os.path.join(CACHE, "audit" if root is None else "audit-" + str(os.getpid()))
     os.makedirs(d, exist_ok=True)
     path = os.path.join(d, f"Audit_{pid}.v")
     with open(path, "w") as o:
         o.write(f"From Chiri Require Import Properties.{pid}.\n")
         for n in names:
             o.write(f'Goal True. idtac "@@BEGIN {n}". Abort.\nPrint Assumptions {n}.\nGoal True. idtac "@@END {n}". Abort.\n')
-    rc, out = sh(["timeout", "300", "coqc", "-noglob", "-Q", COQ, "Chiri", "-o", os.path.join(d, f"Audit_{pid}.vo"), path], cwd=d)
+    rc, out = sh(["timeout", "300", "coqc", "-noglob", "-Q", root or COQ, "Chiri", "-o", os.path.join(d, f"Audit_{pid}.vo"), path], cwd=d)
     res = {}
     if rc != 0:
         return None, out
